@@ -161,7 +161,11 @@ func c28GenWrite(r *vu.Rng) string {
 	case 12:
 		body = fmt.Sprintf("sdblocked %d %d", c28V(r), c28V(r))
 	case 13:
-		body = fmt.Sprintf("streamsblocked %d %d", r.Intn(2), c28V(r))
+		m := c28V(r)
+		if r.Chance(1, 3) {
+			m = (1 << 60) - 1 + uint64(r.Intn(3))
+		}
+		body = fmt.Sprintf("streamsblocked %d %d", r.Intn(2), m)
 	case 14:
 		seq, ret := c28Small(r), c28Small(r)
 		if r.Chance(3, 4) && seq < ret {
@@ -352,7 +356,11 @@ func c28GenFrameBytes(r *vu.Rng) []byte {
 	case 15:
 		b = v(v([]byte{frameTypeStreamDataBlocked}, c28V(r)), c28V(r))
 	case 16:
-		b = v([]byte{byte(frameTypeStreamsBlockedBidi + r.Intn(2))}, c28V(r))
+		m := c28V(r)
+		if r.Bool() {
+			m = (1 << 60) - 1 + uint64(r.Intn(3))
+		}
+		b = v([]byte{byte(frameTypeStreamsBlockedBidi + r.Intn(2))}, m)
 	case 17, 18:
 		seq, ret := c28Small(r), c28Small(r)
 		if r.Chance(4, 5) && seq < ret {
@@ -713,6 +721,8 @@ func c28OracleRoundTrip(op string, f debugFrame, wrote []byte, k int, o *vu.Out)
 		reject = len(f.token) == 0
 	case debugFrameMaxStreams:
 		reject = f.max > maxStreamsLimit
+	case debugFrameStreamsBlocked:
+		reject = f.max > maxStreamsLimit
 	case debugFrameNewConnectionID:
 		reject = f.seq < f.retirePriorTo || len(f.connID) < 1 || len(f.connID) > 20
 	case debugFrameAck:
@@ -802,6 +812,10 @@ func c28ExecParse(op string, b []byte, o *vu.Out) {
 	case debugFrameMaxStreams:
 		if f.max > maxStreamsLimit {
 			o.Fail("", fmt.Sprintf("MAX_STREAMS %d accepted", f.max))
+		}
+	case debugFrameStreamsBlocked:
+		if f.max > maxStreamsLimit {
+			o.Fail("", fmt.Sprintf("STREAMS_BLOCKED %d (stream count above 2^60) accepted: %x", f.max, b))
 		}
 	case debugFrameNewToken:
 		if len(f.token) == 0 {
